@@ -46,3 +46,51 @@ def build_and_run(programs, cxx="g++", opt="-O0", extra=()):
         for name, rc, out in ex.map(_build_run, jobs):
             res[name] = (rc, out)
     return res
+
+
+def _build_staged(args):
+    """One staged program: stage 1 is built and run in its own directory (where it writes slots.hpp and tables.hpp),
+    the later stages are built with that directory on the include path."""
+    name, text, cxx, flags, d, stages = args
+    pd = os.path.join(d, name + ".staged")
+    os.makedirs(pd, exist_ok=True)
+    src = os.path.join(pd, name + ".cpp")
+    with open(src, "w") as f:
+        f.write(text)
+    out = {}
+    gen_files = {}
+    for st in [1] + [x for x in stages if x != 1]:
+        exe = os.path.join(pd, "s%d" % st)
+        rc, o = C.sh([cxx] + flags + ["-DVERIF_STAGE=%d" % st, "-I" + pd, src, "-o", exe], timeout=1800)
+        if rc != 0:
+            out["%s.s%d" % (name, st)] = (None, "COMPILE-FAILED\n" + o[-3000:])
+            if st == 1:
+                break
+            continue
+        rc, o = C.sh([exe], timeout=300, cwd=pd)
+        out["%s.s%d" % (name, st)] = (rc, o)
+        if st == 1:
+            for fn in ("slots.hpp", "tables.hpp"):
+                try:
+                    gen_files[fn] = open(os.path.join(pd, fn)).read()
+                except OSError:
+                    gen_files[fn] = None
+            if rc != 0 or None in gen_files.values():
+                break
+    return name, out, gen_files
+
+
+def build_and_run_staged(programs, stages=(2, 3, 4), cxx="g++", opt="-O0", extra=()):
+    """programs: dict name -> staged C++ text.  Returns (results, generated): results maps '<name>.s<stage>' ->
+    (rc, stdout); generated maps name -> {'slots.hpp': text, 'tables.hpp': text}."""
+    d = os.path.join(C.scratch(), "gen")
+    os.makedirs(d, exist_ok=True)
+    flags = ["-std=c++17", opt, "-w", "-I" + os.path.join(C.REPO, "include"), "-DYOMM2_VERIF",
+             "-include", os.path.join(C.HARNESS, "verif_hooks.hpp")] + list(extra)
+    jobs = [(n, t, cxx, flags, d, tuple(stages)) for n, t in programs.items()]
+    res, generated = {}, {}
+    with cf.ThreadPoolExecutor(max_workers=max(1, C.CORES // 2)) as ex:
+        for name, out, gf in ex.map(_build_staged, jobs):
+            res.update(out)
+            generated[name] = gf
+    return res, generated
